@@ -58,6 +58,20 @@ func checkProofs(pt proofTree, probes [][]byte, others []proofTree) *Violation {
 			if nerr == nil {
 				return viol("proof", "%s.GetNonMembershipProof(%q) of a present key returned a proof", pt.name, k)
 			}
+			// the tree's own verification helpers agree (committed versions only: on the working tree the helper looks
+			// the value up through ImmutableTree.Get, which does not see uncommitted writes - the statement asks for
+			// verification under the standard specification, which is checked above with ics23 itself)
+			if pt.name != "working" {
+				if ok, err := pt.t.VerifyMembership(proof, k); err != nil || !ok {
+					return viol("proof", "%s.VerifyMembership of its own membership proof of %q = %v, %v", pt.name, k, ok, err)
+				}
+				if ok, err := pt.t.VerifyProof(proof, k); err != nil || !ok {
+					return viol("proof", "%s.VerifyProof of its own proof of %q = %v, %v", pt.name, k, ok, err)
+				}
+				if ok, _ := pt.t.VerifyNonMembership(proof, k); ok {
+					return viol("proof", "%s.VerifyNonMembership accepts the membership proof of %q", pt.name, k)
+				}
+			}
 			// negative checks
 			if ics23.VerifyMembership(ics23.IavlSpec, pt.root, proof, k, append(append([]byte{}, want...), 'X')) {
 				return viol("proof", "%s: proof of %q verifies for a different value", pt.name, k)
@@ -101,6 +115,12 @@ func checkProofs(pt proofTree, probes [][]byte, others []proofTree) *Violation {
 			}
 			if nerr != nil || np == nil || !ics23.VerifyNonMembership(ics23.IavlSpec, pt.root, np, k) {
 				return viol("proof", "%s.GetNonMembershipProof(%q) err=%v or does not verify", pt.name, k, nerr)
+			}
+			if ok, err := pt.t.VerifyNonMembership(proof, k); err != nil || !ok {
+				return viol("proof", "%s.VerifyNonMembership of its own non-membership proof of %q = %v, %v", pt.name, k, ok, err)
+			}
+			if ok, err := pt.t.VerifyProof(proof, k); err != nil || !ok {
+				return viol("proof", "%s.VerifyProof of its own proof of %q = %v, %v", pt.name, k, ok, err)
 			}
 			if merr == nil {
 				return viol("proof", "%s.GetMembershipProof(%q) of an absent key returned a proof", pt.name, k)
